@@ -203,7 +203,7 @@ package redis
 //@   ensures @consumes-nothing b.err == nil ==> rpos(b) == old(rpos(b))
 //@   ensures @source-unchanged b.rd == old(b.rd)
 //@   callpre Read @the-source-is-offered-all-the-room-not-occupied-by-unread-bytes len(arg1) == len(b.buf) - (old(b.w) - old(b.r))
-//@   alsoprop C01 C02 : the-source-is-offered-all-the-room-not-occupied-by-unread-bytes progress
+//@   alsoprop C01 C02 C03 : the-source-is-offered-all-the-room-not-occupied-by-unread-bytes progress
 
 //@ func (*Reader).ReadByte
 //@   prop C10 C11
@@ -456,6 +456,7 @@ package redis
 //@   callpre RegisterHook @the-request-is-counted-before-its-completion-hooks-are-registered statval[p.stats.Downstream.RqTotal] >= uint64(old(statval[p.stats.Downstream.RqTotal]) + 1) || statval[p.stats.Downstream.RqTotal] < old(statval[p.stats.Downstream.RqTotal])
 //@   requires p != nil && req != nil && req.body != nil
 //@   requires @handlers-wellformed forall k string :: has(p.cmdHdlrs, k) ==> p.cmdHdlrs[k] != nil
+//@   callpre SetResponse @the-outcome-hook-of-the-downstream-counters-is-registered-before-any-reply len(req.hooks) >= old(len(req.hooks)) + 1
 //@   callpre SetResponse @a-request-answered-here-has-touched-no-per-command-counter forall c loc :: c != p.stats.Downstream.RqTotal ==> statval[c] == old(statval[c])
 //@   callpre field:commandHandler.handle @the-command-is-counted-and-its-completion-hook-registered-before-it-is-handled len(req.hooks) == old(len(req.hooks)) + 2 && (hdlr.stats.Total != p.stats.Downstream.RqTotal ==> statval[hdlr.stats.Total] == uint64(old(statval[hdlr.stats.Total]) + 1))
 //@   callpre field:commandHandler.handle @dispatch-only-registered-commands-on-validated-requests validbody(req.body) && has(p.cmdHdlrs, lower(str(req.body.Array[0].Text)))
@@ -478,6 +479,8 @@ package redis
 
 //@ func handleEval
 //@   prop C11 C03 C02 C01
+//@   callpre MakeRequest @a-script-is-routed-by-its-first-key arg0 == u && sameslice(arg1, req.body.Array[3].Text)
+//@   alsoprop C12 C14 C04 : a-script-is-routed-by-its-first-key
 //@   callpre SetResponse @locally-built-replies-are-one-line oneline(arg1)
 //@   consumes req
 //@   transfers MakeRequest req
@@ -850,6 +853,7 @@ package redis
 //@   alsoprop C11 : no-panic
 //@   requires c != nil && c.done != nil && !closed(c.done)
 //@   callpre drainRequests @the-final-drain-runs-after-the-writer-has-finished waitedfor(writeDone)
+//@   callpre (net.Conn).Close @the-connection-is-closed-as-soon-as-the-reader-has-finished-so-a-writer-blocked-in-the-socket-is-released arg0 == c.conn && !waitedfor(writeDone)
 //@   flag model-once
 //@   assume @before:Do c.quit != nil && oncedone(c.quitOnce) == closed(c.quit)
 //@   callpre drainRequests @the-final-drain-runs-once-the-quit-latch-is-closed closed(c.quit)
@@ -1179,6 +1183,7 @@ package redis
 
 //@ func (*upstream).OnHostAdd
 //@   prop C07
+//@   alsoprop C04 C12 : a-topology-change-triggers-a-slot-refresh
 //@   alsoprop C11 : no-panic
 //@   requires u != nil && setok(u.hosts) && cachefresh(u.hosts) && forall k int :: 0 <= k && k < len(hosts) ==> hosts[k] != nil
 //@   requires @one-host-per-address-in-a-call forall a int, b int :: 0 <= a && a < b && b < len(hosts) ==> hosts[a].Addr != hosts[b].Addr
@@ -1188,6 +1193,7 @@ package redis
 
 //@ func (*upstream).OnHostRemove
 //@   prop C07
+//@   alsoprop C04 C12 : a-topology-change-triggers-a-slot-refresh
 //@   alsoprop C11 : no-panic
 //@   requires u != nil && setok(u.hosts) && cachefresh(u.hosts) && forall k int :: 0 <= k && k < len(hosts) ==> hosts[k] != nil
 //@   established @before:loadClients newUpstream,(*upstream).updateClients upstream.clients @published clientsok(u)
@@ -1199,6 +1205,7 @@ package redis
 
 //@ func (*upstream).OnHostReplace
 //@   prop C07
+//@   alsoprop C04 C12 : a-topology-change-triggers-a-slot-refresh
 //@   alsoprop C11 : no-panic
 //@   requires u != nil && setok(u.hosts) && cachefresh(u.hosts) && forall k int :: 0 <= k && k < len(hosts) ==> hosts[k] != nil
 //@   requires @one-host-per-address-in-a-call forall a int, b int :: 0 <= a && a < b && b < len(hosts) ==> hosts[a].Addr != hosts[b].Addr
@@ -1593,7 +1600,7 @@ package redis
 // non-null key list (a null list would go out as *-1) ------------------------------------------------------------
 
 //@ func init
-//@   prop C18 C01
+//@   prop C18 C01 C14
 //@   modifies all
 //@   assume itoaOffset[0] >= 0 && len(itoaBuffer) >= 0
 
@@ -1611,3 +1618,24 @@ package redis
 //@   prop C08 C18
 //@   modifies mapof(proc.builderRegistry)
 //@   onlycalls RegisterBuilder
+
+// ---- C14/C03/C12: every command is registered with the handler that knows where its keys are ------------------
+
+//@ func newCommandStats
+//@   prop C14 C20
+//@   modifies nothing
+//@   ensures @allocated result != nil && fresh(result)
+
+//@ func (*redisProc).addHandler
+//@   prop C14 C03 C12
+//@   requires p != nil && p.cmdHdlrs != nil
+//@   modifies mapof(p.cmdHdlrs)
+//@   ensures @registered-under-its-name-with-the-given-handler has(p.cmdHdlrs, cmd) && p.cmdHdlrs[cmd] != nil && p.cmdHdlrs[cmd].handle == fn
+//@   ensures @others-untouched forall k string :: k != cmd ==> has(p.cmdHdlrs, k) == old(has(p.cmdHdlrs, k)) && (has(p.cmdHdlrs, k) ==> p.cmdHdlrs[k] == old(p.cmdHdlrs[k]))
+
+//@ func (*redisProc).initCommandHandlers
+//@   prop C14 C03 C12
+//@   requires p != nil && p.cmdHdlrs != nil && p.stats != nil
+//@   modifies all
+//@   callpre addHandler @each-command-gets-the-handler-that-knows-its-keys (arg2 == "eval" ==> fnis(arg3, "redis.handleEval")) && (arg2 == "mset" ==> fnis(arg3, "redis.handleMSet")) && (arg2 == "mget" ==> fnis(arg3, "redis.handleMGet")) && (arg2 == "scan" ==> fnis(arg3, "redis.handleScan")) && (arg2 == "hotkey" ==> fnis(arg3, "redis.handleHotKey")) && (arg2 == "ping" ==> fnis(arg3, "redis.handlePing")) && (arg2 == "quit" ==> fnis(arg3, "redis.handleQuit")) && (arg2 == "info" ==> fnis(arg3, "redis.handleInfo")) && (arg2 == "time" ==> fnis(arg3, "redis.handleTime")) && (arg2 == "select" ==> fnis(arg3, "redis.handleSelect"))
+//@   callpre addHandler @the-two-command-lists-get-their-generic-handlers !ownhandler(arg2) ==> fnis(arg3, "redis.handleSimpleCommand") || fnis(arg3, "redis.handleSumResultCommand")
